@@ -376,7 +376,8 @@ async fn process_commit(
         );
         new_current_line_map.extend(current_lines);
         current_source.line_map = new_current_line_map;
-        parent_source.line_map = if parent_source.line_map.is_empty() {
+        let parent_was_pending = !parent_source.line_map.is_empty();
+        parent_source.line_map = if !parent_was_pending {
             new_parent_line_map
         } else {
             itertools::merge(parent_source.line_map.iter().copied(), new_parent_line_map).collect()
@@ -393,7 +394,11 @@ async fn process_commit(
                     line_number: parent_line_number,
                 });
             }
-            state.num_unresolved_roots += 1;
+            // The omitted parent may be reached from more than one commit, but it
+            // is a single entry of commit_source_map.
+            if !parent_was_pending {
+                state.num_unresolved_roots += 1;
+            }
         }
     }
 
